@@ -180,6 +180,33 @@ fn user_list_case(key: &str, val1: &str, val2: &str, edit: usize, suffix: &str, 
     Ok(())
 }
 
+/// Data corner: auto-correct keys that are another auto-correct key followed by a suffix key (`office` = `offic`+`e`):
+/// the word has an entry of its own AND a base with an entry.  All such pairs of the data, bare and wrapped.
+fn autocorrect_key_pairs(run: &Run) {
+    let d = data();
+    let mut items: Vec<Case> = vec![];
+    let mut keys: Vec<&String> = d.autocorrect.keys().collect();
+    keys.sort();
+    for k in keys {
+        for i in 1..k.len() {
+            if !k.is_char_boundary(i) {
+                continue;
+            }
+            let (b, s) = k.split_at(i);
+            if d.autocorrect.contains_key(b) && d.suffix.contains_key(s) && k.chars().all(|c| crate::driver::keys().has_char(c)) && b.chars().all(|c| c.is_ascii_alphanumeric()) {
+                for (l, t) in [("", ""), ("(", ")")] {
+                    items.push(Case { lead: l.to_string(), base: b.to_string(), suffix: s.to_string(), trail: t.to_string() });
+                }
+            }
+        }
+    }
+    run.exhaustive("auto-correct-key-that-is-an-auto-correct-key-plus-suffix", &items, |_| mk_local(), |c, st, lo| {
+        st.label("auto-correct-key-pairs");
+        checked(c, lo, st)
+    });
+    run.require_label("auto-correct-key-pairs", 60);
+}
+
 fn checked(c: &Case, lo: &mut Local, st: &mut Stats) -> Result<(), Failure> {
     with_fresh_retry(lo, mk_local, |l, s| check(c, l, s), st)
 }
@@ -215,6 +242,7 @@ pub fn strategy() -> impl Strategy<Value = Case> {
 
 pub fn run(run: &Run) {
     user_list_edited(run);
+    autocorrect_key_pairs(run);
     run.require_label("user-list-edited", 300);
     let bases = base_pool();
     let sk = pools().suffix_keys.clone();
